@@ -246,5 +246,5 @@ def run(ctx, rep):
     # parameters (an offset applied to the finished clock time would escape the rounding)
     from . import shared, imsaak as _imsaak
     shared.include(ctx, rep, lambda c_, r_: _imsaak.check(c_, r_, 'R11.8'), {'R11.8'},
-                   keys=lambda k: k in ('imsaak:is-rerun-fajr', 'imsaak:only-fajr-entries', 'imsaak:params-shape'),
+                   keys=lambda k: k in ('imsaak:is-rerun-fajr', 'imsaak:only-fajr-entries', 'imsaak:params-shape', 'imsaak:entry-is-builder-value'),
                    why='Imsaak is rounded by the same converter')
